@@ -4,21 +4,28 @@ DRIVER = "drv_c27"
 
 
 def run(c):
-    c.rule = ("4 of 5 cases: a generated storage (1-4 series with tags a,b,c; one-second events, multiples of 5040, random density and a gap), "
-              "a time scale (step 0/1/5/10/15) and 1-3 expressions = chains of 1-3 operators (sum/min/max/avg/count/group/stddev/stdvar/"
-              "quantile with by/without, topk/bottomk, *_over_time incl. quantile_over_time with matrix or subquery ranges, parentheses, "
-              "`+ 0` rule breakers, optional __what__) over the selector, each run through the real Engine; cases that leave float64's exact "
-              "domain or depend on a weight tie are regenerated. 1 of 5 cases: the bare window cursor on non-uniform time grids. "
-              "non-trivial = the expression was rewritten by a reduction rule, or its result has missing points, or the cursor moved > 2 times")
-    c.assumptions += ["storage contract: QuerySeries merges the rows of one (group, bucket) with tsValues.merge and selects with tsValues.value "
-                      "(both real code, called by the stub); one event per (series, second)",
-                      "single LOD time scales, one time shift, no filters, no host tags",
-                      "exact arithmetic: inputs are chosen so that every float64 operation is exact (re-checked with big.Rat per case)"]
+    c.rule = ("eval cases (5 of 8): a generated storage (1-4 series with tags a,b,c; one-second events, multiples of 5040) and a query whose time "
+              "scale the real data_model.GetTimescale builds: fine (step 0/1/5/10/15, dense events), coarse (steps 2/10/20/30/45/60/120/300/600/7200 "
+              "incl. steps that are not LOD levels, served on a finer grid; at most one event per series and grid point) or two LODs (the query "
+              "crosses the minute-table/second-table boundary); 1-3 expressions = trees of unary operators (sum/min/max/avg/count/group/stddev/"
+              "stdvar/quantile with by/without, topk/bottomk, *_over_time incl. quantile_over_time with matrix or subquery ranges of <1, 1, 2, 3 "
+              "grid points, parentheses, `+ 0` rule breakers, optional __what__) and vector-vector binary operators (+ - * / == > < >= <= with "
+              "default, on(..) and ignoring(..) one-to-one matching; half of them agg by (L) (x op x | agg without () (x) | ..) op agg by (L) (..)), "
+              "each run through the real Engine; cases that leave float64's exact domain, depend on a weight tie or on a scalar-left comparison tie "
+              "are regenerated. numeric cases (2 of 8, oracle only): magnitudes 1e6..1e12 with spread down to magnitude/1e9 and mixed magnitudes. "
+              "window cases (1 of 8): the bare cursor on non-uniform grids. non-trivial = rewritten by a reduction rule, or result with missing "
+              "points, or non-empty result of a binary operator, or numeric case, or cursor moved > 2 times")
+    c.assumptions += ["storage contract: QuerySeries merges the rows of one (group, bucket of the point's LOD) with tsValues.merge and selects with "
+                      "tsValues.value (both real code, called by the stub); one event per (series, second)",
+                      "one time shift, no filters, no host tags; binary operators one-to-one only, without bool / != / set operators / group_left",
+                      "exact arithmetic in the model: inputs are chosen so that every float64 operation is exact (re-checked with big.Rat per case); "
+                      "rounding behaviour is judged by the numeric oracle stream only (relative 1e-6 + floor; the current code's worst observed error "
+                      "is < 1e-4 of that tolerance)"]
     c.prove("SH.Props.C27", extra_files=["SH/Model/PromEval.lean"])
     drv = c.driver(DRIVER)
     binary = c.go_build(HARNESS)
     if binary and drv:
-        rc, out = c.go_run(binary, [f"-n={c.n(400, 20000)}"])
+        rc, out = c.go_run(binary, [f"-n={c.n(1000, 30000)}"])
         c.harness_ok(rc, out, "verif-c27")
         c.correspond(out, drv)
 
@@ -26,7 +33,7 @@ def run(c):
         if not binary:
             return
         for k in range(1, 6):
-            rc, out = c.go_run(binary, [f"-n={c.n(1000, 3000)}", f"-seed={c.seed + 1000 * k}"])
+            rc, out = c.go_run(binary, [f"-n={c.n(2000, 6000)}", f"-seed={c.seed + 1000 * k}"])
             c.collect(out)
             if c.oracle:
                 return
@@ -42,9 +49,9 @@ META = {
              "definitions over the present points; every aggregator and quantile depends on a column only through its present points; "
              "what a pre-aggregating storage returns for the pooled rows of a group equals the engine's sum/count/min/max (and sum/count for avg) "
              "over the per-series storage values (algebraic core of reduction soundness); the over-time rule fires iff Range <= step (= step for "
-             "stddev/stdvar); every cursor move keeps l <= r and moves r by one. The model is tied to the code by diffing every result point of "
+             "stddev/stdvar); every cursor move keeps l <= r and moves r by one; a vector matched one-to-one against itself loses no series and every result of a binary operator stems from a left/right pair with equal matching label sets. The model is tied to the code by diffing every result point of "
              "generated expressions run through the real engine; two direct oracles recompute definitions with big.Rat (def-*) and compare a "
-             "pushed-down expression with its engine-side evaluation over one-second data (reduce-*)."),
+             "pushed-down expression with its engine-side evaluation over the underlying series (reduce-*), on time scales built by the real GetTimescale (grids finer than the step, two LODs); a numeric stream outside the exact domain compares with the exact definition within a relative tolerance (def-*-numeric)."),
     "note": ("Partial: reduction soundness is proved at the row level (merge/value vs aggregate), its lift to whole expressions and the window "
              "definition on uniform grids (over_time_is_definition) are covered by correspondence/oracles only; topk/bottomk, quantile for q>0 "
              "and grouping keys likewise. Trusted: Lean kernel; the Handler stub (storage contract; it calls the real tsValues.merge/value); "
